@@ -43,8 +43,10 @@ impl Write for Connection {
             }
             Self::Tcp(ref mut w) => {
                 // todo: reconnect if conn is broken
-                let n = w.write(buf)?;
-                Ok(w.write(b"\n")? + n)
+                // (must not return more than buf.len(): write_all() panics otherwise)
+                w.write_all(buf)?;
+                w.write_all(b"\n")?;
+                Ok(buf.len())
             }
             Self::Udp(ref socket) => {
                 // ??
